@@ -20,7 +20,13 @@ def parseVal (s : String) : Option PanicVal :=
   | _ => none
 
 def parseProgress : String → Option Progress
-  | "N" => some .nothing | "H" => some .headerOnly | "B" => some .partialBody | _ => none
+  | "N" => some .nothing | "H" => some .headerOnly | "B" => some .partialBody
+  | "F" => some .headerOnly        -- a flush only: the implicit 200 header is committed
+  | "S" | "R" => some .partialBody -- WriteString / ReadFrom without an explicit header (status 200)
+  | _ => none
+
+/-- the status the handler committed before it panicked -/
+def startedStatus (progS : String) : Nat := if progS == "H" || progS == "B" then 202 else 200
 
 def insSorted (s : String) : List String → List String
   | [] => [s]
@@ -43,7 +49,7 @@ def handleP (valS progS scope hdrS : String) : String :=
       (hdrS.splitOn ",").map fun kv => bytesOfHex ((kv.splitOn "=").headD "")
     let d := recovery v p names
     let out := if d.repanic then "repanic:same" else "returned"
-    let status := if d.handled then 500 else if p.written then 202 else 0
+    let status := if d.handled then 500 else if p.written then startedStatus progS else 0
     let red := sortStrings (d.redactedNames.map hexOfStr)
     let route := if !d.logged then "-" else if scope == "noroute" then toHex (ascii "NoRouteHandler") else toHex (ascii "/r/{id}")
     let params := if !d.logged || scope == "noroute" then "-" else toHex (ascii "id") ++ "=" ++ toHex (ascii "42")
@@ -52,7 +58,7 @@ def handleP (valS progS scope hdrS : String) : String :=
       ",route=" ++ route ++ ",params=" ++ params ++ ",reqline=" ++ (if d.logged then "1" else "0") ++ "," ++ followOk true true
     -- what the property demands
     let (rep, fresh) := Spec.outcome v p
-    let sstatus := if fresh then 500 else if p != .nothing then 202 else 0
+    let sstatus := if fresh then 500 else if p != .nothing then startedStatus progS else 0
     let s := "out=" ++ (if rep then "repanic:same" else "returned") ++ ",status=" ++ toString sstatus ++
       ",touched=" ++ (if fresh then "1" else "0") ++ ",leak=0," ++ followOk true true
     let nSens := (names.filter Spec.isSensitive).length
